@@ -2,6 +2,7 @@ open BinNums
 open BinPosDef
 open Datatypes
 open Decimal
+open Nat
 
 module Pos :
  sig
@@ -35,6 +36,10 @@ module Pos :
   val compare : positive -> positive -> comparison
 
   val eqb : positive -> positive -> bool
+
+  val iter_op : ('a1 -> 'a1 -> 'a1) -> positive -> 'a1 -> 'a1
+
+  val to_nat : positive -> nat
 
   val of_succ_nat : nat -> positive
 
